@@ -262,6 +262,7 @@ pub fn run_plan(plan: &Plan) -> RunOut {
     w.sched_yield_pm = plan.sched_yield_pm;
     w.disk.fail_writes = plan.disk_fail_writes.iter().cloned().collect();
     w.disk.fail_reads = plan.disk_fail_reads.iter().cloned().collect();
+    w.disk.full_from = plan.disk_full_from;
     for (lat, step) in &plan.tracker.steps {
         let (out, label) = tracker_body(step, plan);
         w.tracker.script.push((*lat, out, label));
